@@ -36,6 +36,7 @@ const (
 	sigFinallyJump    = "completion-value|finally-left-by-nested-break-or-continue|value-of-try-block-kept"
 	sigNestedJump     = "completion-value|statement-list-left-by-nested-break-or-continue|value-before-the-jump-lost"
 	sigStrictEvalArgs = "strict-function|direct-eval|arguments-object-not-visible"
+	sigEvalThisSuper  = "derived-constructor|this-or-super-property-before-super()|in-direct-eval-code|no-ReferenceError"
 	sigNestedEval     = "function-prologue|non-simple-parameters|direct-eval-inside-the-function|panic-or-corrupted-parameters"
 	sigDefaultParam   = "function-prologue|default-parameter-after-forward-reference-or-eval|supplied-argument-left-uninitialised"
 )
@@ -191,6 +192,28 @@ var recognisers = []recogniser{
 		}
 		return anyNode(cp, func(n *irjs.Node) bool {
 			return n.Is("evalstr") && anyNode(n, func(m *irjs.Node) bool { return m.IsAtom("arguments") })
+		})
+	}},
+	{sigEvalThisSuper, func(cp *irjs.Node, f *failure) bool {
+		// form: the base throws ReferenceError at a point where the variant carries on
+		d := strings.SplitN(firstDiff(f.want, f.got), "/", 2)
+		if len(d) != 2 || !strings.Contains(d[0], "ReferenceError") || strings.Contains(d[1], "ReferenceError") {
+			return false
+		}
+		// shape: eval code (R7: eval of a function's own text) inside the constructor of a derived class that
+		// mentions this / super.x
+		return anyNode(cp, func(n *irjs.Node) bool {
+			if !(n.Is("classdecl") || n.Is("class")) || n.Kids[1].IsNone() {
+				return false
+			}
+			for _, m := range n.Kids[2:] {
+				if m.Is("ctor") && anyNode(m, func(x *irjs.Node) bool {
+					return x.Is("evalstr") && anyNode(x, func(y *irjs.Node) bool { return y.IsAtom("this") || y.Is("superdot") })
+				}) {
+					return true
+				}
+			}
+			return false
 		})
 	}},
 	{sigSurplusArgs, func(cp *irjs.Node, f *failure) bool {
